@@ -3,7 +3,7 @@
 use crate::build::*;
 use crate::gen::*;
 use crate::monitor::{fp_msg, fp_state, panic_site, probe, Fp, Monitor};
-use crate::props::c05::{add_fixed_and_dependent, add_threshold_constraints};
+use crate::props::c05::{add_fixed_and_dependent2, add_threshold_constraints};
 use crate::rng::Rng;
 use crate::{Env, Property, Tier};
 use ommx::{v1, Evaluate};
@@ -216,7 +216,7 @@ impl Property for C06 {
         let g = gen_instance(rng, &cfg);
         let mut inst = g.instance;
         add_threshold_constraints(rng, &mut inst, &g.pool);
-        let hidden = add_fixed_and_dependent(rng, &mut inst, regime);
+        let (hidden, dep_sources) = add_fixed_and_dependent2(rng, &mut inst, regime);
         let used = used_ids(&inst);
         // 1..8 sample ids (the property's range); deep thorough cases go up to 40
         let n = 1 + rng.usize_below(if self_tier_thorough && case_k % 8 == 5 { 40 } else { 8 });
@@ -231,7 +231,7 @@ impl Property for C06 {
                 .iter()
                 .map(|v| v.id)
                 .filter(|i| !hidden.contains(i))
-                .filter(|i| used.contains(i) || !omit_irrelevant || rng.bool())
+                .filter(|i| used.contains(i) || dep_sources.contains(i) || !omit_irrelevant || rng.bool())
                 .collect();
             if inst.decision_variables.iter().any(|v| !hidden.contains(&v.id) && !give.contains(&v.id)) {
                 any_omitted = true;
@@ -288,7 +288,14 @@ impl Property for C06 {
                     return;
                 }
                 Ok(Err(e)) => {
-                    mon.violation("C06.evaluate-samples-error", format!("evaluate_samples failed: {e}\n{}", ctx()));
+                    let fixed: BTreeSet<u64> = inst.decision_variables.iter().filter(|v| v.substituted_value.is_some()).map(|v| v.id).collect();
+                    let reads_fixed = inst.decision_variable_dependency.values().any(|f| crate::exact::occurring_ids(f).iter().any(|i| fixed.contains(i)));
+                    let sig = if reads_fixed && e.contains("Cannot evaluate any dependent variables") {
+                        "C06.evaluate-samples-error:dependency-reads-fixed-variable"
+                    } else {
+                        "C06.evaluate-samples-error"
+                    };
+                    mon.violation(sig, format!("evaluate_samples failed ({e}) although every sample state evaluates alone\n{}", ctx()));
                     return;
                 }
                 Ok(Ok((ss, _))) => ss,
